@@ -348,11 +348,14 @@ func (b *c01Builder) stream(dict string, data []byte, allowPad bool) (int, []byt
 			enc = deflate(pngPredict(1, cols, types, data))
 			o.filters = []string{"FlateDecode"}
 			o.parms = fmt.Sprintf("<< /Predictor %d /Columns %d >>", 10+rng.Intn(6), cols)
-			if rng.Bool() {
-				o.parms = "[" + o.parms + "]"
-			} else {
-				o.single = true
+			// the filter as a name or a one-element array, its parameters as a dictionary or a one-element array
+			switch rng.Intn(3) {
+			case 0:
+				o.single = true // /Filter /FlateDecode /DecodeParms << >>
+			case 1:
+				o.parms = "[" + o.parms + "]" // /Filter [/FlateDecode] /DecodeParms [<< >>]
 			}
+			// case 2: /Filter [/FlateDecode] /DecodeParms << >> (a one-element filter array with a plain dictionary)
 			b.tags["filter:flate+png"] = true
 			chain = nil
 		}
